@@ -205,6 +205,10 @@ class FD:
                 return self.resolver(d)
             except KeyError:
                 pass
+        if d in ('sys.version_info', 'sys.platform') and 'sys' not in env:
+            # the platform the analysis (and the pinned suite) runs on: CPython of /venv, not Skulpt
+            import sys as _sys
+            return tuple(_sys.version_info) if d == 'sys.version_info' else _sys.platform
         if d is not None and d.count('.') == 1 and d.split('.')[0] in ('re', 'math') and d.split('.')[0] not in env:
             # plain constants of two stdlib modules (re.MULTILINE, math.inf): data, not code
             import importlib
@@ -215,6 +219,10 @@ class FD:
         if isinstance(base, Obj):
             if e.attr in base.attrs:
                 return base.attrs[e.attr]
+            if '__classdef__' in base.attrs and not (e.attr.startswith('__') and e.attr.endswith('__')):
+                ga = self.class_method(base, '__getattr__')
+                if ga is not None:
+                    return ga(e.attr)   # the class's own __getattr__, interpreted
             if base.attrs.get('__closed__'):
                 raise Raised('AttributeError', '%r object has no attribute %r' % (base._name, e.attr))
             if base.attrs.get('__open__'):
@@ -591,12 +599,16 @@ class FD:
             env[fn.args.vararg.arg] = tuple(args[len(params):])
         for k, v in (kwargs or {}).items():
             env[k] = v
-        for p, d in zip(params[len(params) - len(defaults):], defaults):
-            if p not in env:
-                env[p] = self.eval(d, {})
-        for a, d in zip(fn.args.kwonlyargs, fn.args.kw_defaults):
-            if a.arg not in env and d is not None:
-                env[a.arg] = self.eval(d, {})
+        self._mods.append(getattr(fn, '_module', None) or (self._mods[-1] if self._mods else None))
+        try:
+            for p, d in zip(params[len(params) - len(defaults):], defaults):
+                if p not in env:
+                    env[p] = self._default(d, p)
+            for a, d in zip(fn.args.kwonlyargs, fn.args.kw_defaults):
+                if a.arg not in env and d is not None:
+                    env[a.arg] = self._default(d, a.arg)
+        finally:
+            self._mods.pop()
         for p in params:
             if p not in env:
                 raise Inconclusive('fdeval: missing argument %s' % p)
@@ -609,6 +621,16 @@ class FD:
         finally:
             self._mods.pop()
         return None if r is NO_RETURN else r
+
+    def _default(self, d, name):
+        """Value of a parameter default; a default the interpreter cannot evaluate (MAIN_REPORT = Report()) is an
+        opaque object distinct from everything else."""
+        try:
+            return self.eval(d, {})
+        except Inconclusive:
+            o = Obj('default of %s' % name)
+            o.attrs['__open__'] = True
+            return o
 
     def class_method(self, obj, attr):
         """A method of the class the object was bound to (or of its pedal base classes) that the harness did not
